@@ -1,4 +1,5 @@
 import NasdaqModel.Driver.Loop
 import NasdaqModel.Driver.GenHistory
 import NasdaqModel.Driver.GenReuse
-def main : IO Unit := NasdaqModel.Driver.mainLoop [NasdaqModel.Driver.GenHistoryD.handle, NasdaqModel.Driver.GenReuseD.handle]
+import NasdaqModel.Driver.GenNames
+def main : IO Unit := NasdaqModel.Driver.mainLoop [NasdaqModel.Driver.GenHistoryD.handle, NasdaqModel.Driver.GenReuseD.handle, NasdaqModel.Driver.GenNamesD.handle]
